@@ -112,6 +112,23 @@ def ob_wild(form):
     return h
 
 
+def ob_op_wild(opi):
+    """an explicit operator in front of a wildcard component (`>=1.*`, `<1.2.*`, `^1.2.*`; Cargo's parser reads the wildcard as a missing component there):
+    accepted exactly like the same comparator with the partial version - alone and as the first member of a comma list"""
+    def h():
+        nr = 1 + choose(2, 'given components')
+        rc, rs = ver('r', nr)
+        vc, vs = ver('v', 3)
+        req = OPS[opi] + (' ' if choose(2, 'space') else '') + rs + '.*'
+        exp = ref_accept(OPS[opi], rc, vc)
+        if choose(2, 'in a list'):
+            qc, qs = ver('q', 1)
+            req = req + ', <' + qs; exp = sym_and(exp, ref_accept('<', qc, vc))
+        check(eq(V.cargo_parse(req)(vs), exp), 'operator + wildcard = operator + partial version')
+        cover('done')
+    return h
+
+
 def ob_list(op1, op2):
     def h():
         r1, s1 = ver('r', 2); r2, s2 = ver('q', 2)
@@ -443,6 +460,8 @@ def obligations(tier):
     for f in range(3):
         out.append(Obligation('wildcard[%d]' % f, ob_wild(f), dict(form=['*', 'I.*', 'I.J.*'][f]), labels=('done',)))
     pairs = [(5, 4), (7, 4)] if tier == 'quick' else [(a, b) for a in range(len(OPS)) for b in range(len(OPS))]
+    for opi in range(1, len(OPS)):
+        out.append(Obligation('op-wildcard[%s]' % OPS[opi], ob_op_wild(opi), dict(form=OPS[opi] + 'I.* | ' + OPS[opi] + 'I.J.*', alone_or_in_list='both'), labels=('done',)))
     for a, b in pairs:
         out.append(Obligation('list[%s,%s]' % (OPS[a] or 'bare', OPS[b] or 'bare'), ob_list(a, b), dict(ops=(OPS[a], OPS[b]), components=2), labels=('done',)))
     out.append(Obligation('semver-order', ob_order(1 if tier == 'quick' else 2),
